@@ -1,6 +1,6 @@
 import MindsVerif.Lemmas.RouteWalk
-/-! `get_query_info` / `check_single_integration`: both directions of the decision, for the code as it is
-(`skip = false`) and with bare CTE names skipped (`skip = true`, fixes/C11_1.diff). -/
+/-! `get_query_info` / `check_single_integration`: both directions of the decision, for the code before 0e75382
+(`skip = false`) and as it is now, with bare CTE names skipped (`skip = true`). -/
 namespace MindsVerif.Route
 
 theorem mem_insertSet_self (x : Name) (s : List Name) : x ∈ insertSet x s := by
